@@ -266,6 +266,7 @@ func (h *opHandler) ProcessEventBatch(ctx context.Context, req *handlerpb.Proces
 				class = prop + "/state-lost"
 			}
 			c.Violate(class, "operator %s, key %q: handler was given %s but the mutations it returned so far amount to %s", h.op, k, got, want)
+			debugDumpDisk(c, debugDisk)
 		}
 	}
 
